@@ -1,6 +1,33 @@
-//! C27: not implemented yet.
+//! C27: redirect targets, hop limit, header stripping.  The chain engine lives in c26.rs.
+//! kinds:
+//!   {"kind":"chain", ...}                    as in c26.rs
+//!   {"kind":"host","uri":str}                -> host_is_non_global(uri) and the host http::Uri reports
+//!   {"kind":"ipparse","s":str}               -> std IpAddr::from_str + ip_is_non_global
+use std::net::IpAddr;
+
+use c2pa::{http::http::Uri, verif_hooks::c27 as hk};
 use serde_json::{json, Value};
 
-pub fn run(_case: &Value) -> Value {
-    json!({"r": "unimplemented"})
+use crate::c26::{run_chain, uri_json};
+
+pub fn run(case: &Value) -> Value {
+    match case["kind"].as_str().unwrap_or("") {
+        "chain" => run_chain(case),
+        "host" => {
+            let uri: Uri = match case["uri"].as_str().unwrap_or("").parse() {
+                Ok(u) => u,
+                Err(_) => return json!({"r": "uri_err"}),
+            };
+            let mut j = uri_json(&uri);
+            j["r"] = json!("ok");
+            j["non_global"] = json!(hk::verif_host_is_non_global(&uri));
+            j
+        }
+        "ipparse" => match case["s"].as_str().unwrap_or("").parse::<IpAddr>() {
+            Ok(IpAddr::V4(a)) => json!({"r": "ok", "v4": a.octets().to_vec(), "non_global": hk::verif_ip_is_non_global(IpAddr::V4(a))}),
+            Ok(IpAddr::V6(a)) => json!({"r": "ok", "v6": a.segments().to_vec(), "non_global": hk::verif_ip_is_non_global(IpAddr::V6(a))}),
+            Err(_) => json!({"r": "none"}),
+        },
+        _ => json!({"r": "bad_case"}),
+    }
 }
